@@ -29,7 +29,9 @@ class SpinDetected(BaseException):
 def build_frame(kind, idx, size_class=0, variant=0):
     """-> dict(kind, real, declared, bytes)"""
     if kind == "undec":
-        b = msgs.undecodable(hbh=idx, size=40 + 4 * size_class)
+        # two ways of being undecodable: AVP framing that runs off the end (packer error) / a typed command whose grouped AVP
+        # has a malformed payload (AvpDecodeError)
+        b = (msgs.undecodable2 if (idx + variant) % 2 else msgs.undecodable)(hbh=idx, size=40 + 4 * size_class)
         return {"kind": kind, "real": len(b), "declared": len(b), "bytes": b}
     if size_class == 0:
         b = msgs.dwr("p%d.r1" % idx, hbh=idx, e2e=idx).as_bytes()
